@@ -303,6 +303,8 @@ example : (runHist Ex.Hid Gen.writeToolStmt [1, 2] Ex.fsEx histEx).2 = [.err .E_
 
 /-! ### Two writers: the compare-and-swap is not atomic (F27) -/
 
+set_option maxRecDepth 100000
+
 def fsEx : Fs := Ex.fsEx
 def Hid : Data → Hash := fun d => d
 
@@ -316,9 +318,12 @@ def sysAB : Sys :=
   ⟨[{ call := callA, pc := Gen.writeToolStmt.toProg callA.params }, { call := callB, pc := Gen.writeToolStmt.toProg callB.params }],
    fsEx⟩
 
-/-- … re-read_A  re-read_B  replace_A  replace_B : A runs up to and including its re-read (16 ops), then B
-does the same, then A replaces, then B replaces. -/
-def scheduleF27 : List Nat := List.replicate 16 0 ++ List.replicate 16 1 ++ [0, 1]
+/-- … (re-read_A) (re-read_B) replace_A replace_B : A runs alone up to (not including) its `os.replace`, then B
+does the same, then A replaces, then B replaces.  The positions are computed from the programs (the
+fault-free solo trace), not pinned. -/
+def scheduleF27 : List Nat :=
+  List.replicate (Ex.idx (Ex.traceOf (exec Hid Gen.writeToolStmt callA {} fsEx)) (.replace .temp .target)) 0 ++
+  List.replicate (Ex.idx (Ex.traceOf (exec Hid Gen.writeToolStmt callB {} fsEx)) (.replace .temp .target)) 1 ++ [0, 1]
 
 /-- **C17_two_writers_negative (F27).**  There is a schedule of the two generated programs in which both
 writers, holding the same base_hash, answer success; the file ends up with B's text and A's update is
@@ -326,11 +331,11 @@ lost.  The re-check and `os.replace` are not one critical section.  (Re-confirme
 tools/props/c17.py on every run.) -/
 theorem C17_two_writers_negative :
     ∃ sched, ((runSched Hid sched sysAB).procs.map (fun p => p.result Hid)) = [some (.ok "A".toList), some (.ok "B".toList)] ∧
-      (runSched Hid sched sysAB).fs [1, 2] = some (.file "B".toList 416 true) :=
+      (runSched Hid sched sysAB).fs.dataAt [1, 2] = some "B".toList :=
   ⟨scheduleF27, by decide⟩
 
 /-- Non-vacuity of the positive side: when B starts after A has finished, B is refused with E_HASH. -/
-example : ((runSched Hid (List.replicate 17 0 ++ List.replicate 17 1) sysAB).procs.map (fun p => p.result Hid))
+example : ((runSched Hid (List.replicate 40 0 ++ List.replicate 40 1) sysAB).procs.map (fun p => p.result Hid))
     = [some (.ok "A".toList), some (.err .E_HASH)] := by decide
 
 /-! ### One event loop serves calls serially -/
